@@ -86,8 +86,8 @@ func c05encExec(c *cur) string {
 	notes := []string{}
 	// decoder-side escaping: decode followed by encode reproduces the original escaped values
 	if decoderMode && doc != "" {
-		// the same with the cast flag on and every tag exempted from casting (the values stay
-		// strings; escaping is not a cast and must not depend on the exemption)
+		// the same with the cast flag on and every tag exempted from casting (Map decoder; the values
+		// stay strings; escaping is not a cast and must not depend on the exemption)
 		castSkip := len(op0)%3 == 0
 		if castSkip {
 			mxj.SetCheckTagToSkipFunc(func(string) bool { return true })
@@ -99,10 +99,10 @@ func c05encExec(c *cur) string {
 			var e1, e2, e3 error
 			if seq {
 				var a, b mxj.MapSeq
-				a, e1 = mxj.NewMapXmlSeq([]byte(doc), castSkip)
+				a, e1 = mxj.NewMapXmlSeq([]byte(doc))
 				if e1 == nil {
 					x, e2 = a.Xml()
-					b, e3 = mxj.NewMapXmlSeq(x, castSkip)
+					b, e3 = mxj.NewMapXmlSeq(x)
 				}
 				m1, m2 = a, b
 			} else {
